@@ -389,4 +389,249 @@ Section LookupSound.
       apply (nonmem_sound_b cfg Bad B) in Hnm; auto; [|rewrite Hl; exact F2].
       destruct Hnm as [Hnm|HB]; [|right; exact HB]. exfalso. apply Hnm. rewrite Hl. apply tree_has_fresh; lia.
   Qed.
+
+  (* ---------------------------------------------------------------- AllowMissingValues (C07) *)
+
+  (* the stale leaf of version v was inserted together with version v+1 and carries its epoch *)
+  Hypothesis tree_stale_epoch : forall y v, In y (leaves t) -> lf_label y = nlabel_of false v ->
+    lf_value y = c_stale_value cfg /\ lf_epoch y = ep_of (v + 1).
+  Hypothesis stale_D32 : D32 (c_stale_value cfg).
+
+  Lemma chain_leaf fresh v vp mp : mp_ok mp ->
+    verify_existence cfg vrf_check pk (root_hash cfg true t) l fresh v vp mp = true ->
+    (exists c e, In (LF (nlabel_of fresh v) c e) (leaves t) /\ mp_hash_val mp = c_leaf_hash cfg c e /\ D32 c) \/ Bad.
+  Proof.
+    intros Hmp H. unfold verify_existence in H. apply andb_true_iff in H. destruct H as [Hl Hm].
+    apply verify_label_label in Hl.
+    assert (Hroot : tlabel t = nl_root /\ is_leaf t = false).
+    { destruct t; simpl in t_wf; [discriminate|]. apply andb_true_iff in t_wf. destruct t_wf as [W _].
+      apply andb_true_iff in W. destruct W as [W _]. apply nl_eqb_eq in W. auto. }
+    destruct Hroot as [Hr Hlf].
+    destruct (mem_sound_b cfg Bad B t mp t_ok Hr Hlf Hmp Hm) as [Ho|]; [|now right].
+    destruct (nlabel_full fresh v) as (F1 & F2 & F3).
+    destruct Ho as [A HA HlA HvA|l0 le mde a b HS H1 H2 HlE HvE].
+    2:{ apply (b_lvalue_inj _ _ B) in HlE; [|rewrite Hl; exact F3|apply (b_empty_label_LW _ _ B)].
+      destruct HlE as [HlE|]; [|now right]. exfalso.
+      pose proof (full_label_canonical _ F2 F1) as Hc. rewrite <- Hl, HlE, (b_empty_label_not_canonical _ _ B) in Hc. discriminate. }
+    pose proof (Sub_ok A t HA t_ok) as HokA.
+    apply (b_lvalue_inj _ _ B) in HlA; [|rewrite Hl; exact F3|destruct A; simpl in HokA; tauto].
+    destruct HlA as [HlA|]; [|now right].
+    destruct (full_label_is_leaf t A t_wf HA ltac:(rewrite <- HlA, Hl; exact F1)) as (ca & ea & EA).
+    rewrite EA in HA, HvA, HokA. apply Sub_leaf_in in HA. simpl in HvA, HokA. destruct HokA as [_ Dca].
+    left. exists ca, ea. split; [|split; [exact HvA | exact Dca]].
+    assert (E0 : tlabel A = nlabel_of fresh v) by congruence. rewrite <- E0. exact HA.
+  Qed.
+
+  Definition up_ok2 (u : update_proof) : Prop :=
+    up_ok u /\ match up_prev u with Some pm => mp_ok pm | None => True end.
+  Definition hp_ok2 (p : history_proof) : Prop :=
+    Forall up_ok2 (hp_updates p) /\ Forall nmp_ok (hp_future p).
+
+  (* what a client that opted in may be told about version v: the truth, or the tombstone with the
+     true epoch - except for version 1, whose epoch nothing binds once the value check is skipped
+     (the known finding K2) *)
+  Definition amrel (r tr : verify_result) : Prop :=
+    r_version r = r_version tr /\
+    ((r_value r = r_value tr /\ r_epoch r = r_epoch tr) \/
+     (r_value r = GenConsts.TOMBSTONE /\ (r_epoch r = r_epoch tr \/ r_version r = 1))).
+
+  Definition entry_of (u : update_proof) : verify_result := VRes (up_epoch u) (up_version u) (up_value u).
+
+  Lemma single_update_sound_am u res : up_ok2 u ->
+    verify_single_update cfg vrf_check pk (root_hash cfg true t) l true u = Some res ->
+    (res = entry_of u /\ 1 <= up_version u /\ up_version u <= n /\ amrel (entry_of u) (true_entry (up_version u))) \/ Bad.
+  Proof.
+    intros [(U1 & U2 & U3 & U4) U5] H. unfold verify_single_update in H. cbn [andb] in H.
+    destruct (is_tombstone (up_value u)) eqn:Et.
+    - (* the value check is skipped *)
+      destruct (verify_existence _ _ _ _ _ _ _ _ _) eqn:Ex; [|discriminate]. cbn [negb] in H.
+      destruct (chain_leaf true (up_version u) _ _ U1 Ex) as [(c & e & Hin & _ & _)|]; [|now right].
+      destruct (tree_fresh _ (up_version u) Hin eq_refl) as (V1 & V2 & _ & _).
+      unfold is_tombstone in Et. apply bytes_eqb_eq in Et.
+      destruct (N.leb_spec (up_version u) 1) as [Hv1|Hv1].
+      + injection H as <-. left. split; [reflexivity|]. split; [exact V1|]. split; [exact V2|].
+        split; [reflexivity|]. right. split; [exact Et|]. right. cbn [entry_of r_version]. lia.
+      + destruct (up_prev u) as [pm|]; [|discriminate]. destruct (up_prev_vrf u) as [pv|]; [|discriminate].
+        destruct (verify_existence_with_commitment _ _ _ _ _ _ _ _ _ _ _) eqn:Ec; [|discriminate]. injection H as <-.
+        unfold verify_existence_with_commitment in Ec. apply andb_true_iff in Ec. destruct Ec as [Hh Ec]. apply bytes_eqb_eq in Hh.
+        destruct (chain_leaf false (up_version u - 1) _ _ U5 Ec) as [(c2 & e2 & Hin2 & Hv & Dc)|]; [|now right].
+        destruct (tree_stale_epoch _ (up_version u - 1) Hin2 eq_refl) as [Sv Se]. cbn [lf_value lf_epoch] in Sv, Se.
+        rewrite <- Hh in Hv.
+        assert (He : e2 < 2 ^ 64) by (rewrite Se; apply eps_u64).
+        apply (b_leaf_inj _ _ B) in Hv; auto. destruct Hv as [[_ Hee]|]; [|now right].
+        left. split; [reflexivity|]. split; [exact V1|]. split; [exact V2|]. split; [reflexivity|].
+        right. split; [exact Et|]. left. cbn [entry_of r_epoch true_entry]. rewrite Hee, Se. f_equal. lia.
+    - destruct (verify_existence_with_val _ _ _ _ _ _ _ _ _ _ _ _) eqn:Ex; [|discriminate]. cbn [negb] in H.
+      apply existence_with_val_sound in Ex; auto. destruct Ex as [(V1 & V2 & V3 & V4)|]; [|now right].
+      assert (Hres : res = entry_of u).
+      { unfold entry_of. destruct (up_version u <=? 1); [congruence|]. destruct (up_prev u), (up_prev_vrf u); try discriminate.
+        destruct (verify_existence_with_commitment _ _ _ _ _ _ _ _ _ _ _); congruence. }
+      left. split; [exact Hres|]. split; [exact V1|]. split; [exact V2|]. split; [reflexivity|]. left.
+      cbn [entry_of r_value r_epoch true_entry]. split; assumption.
+  Qed.
+
+  Lemma updates_sound_am us : forall prev rs, Forall up_ok2 us ->
+    verify_updates cfg vrf_check pk (root_hash cfg true t) l true prev us = Some rs ->
+    (rs = map entry_of us /\ (forall u, In u us -> 1 <= up_version u /\ up_version u <= n) /\
+     Forall (fun u => amrel (entry_of u) (true_entry (up_version u))) us) \/ Bad.
+  Proof.
+    induction us as [|u us IH]; intros prev rs Hok H; simpl in H.
+    - injection H as <-. left. split; [reflexivity|]. split; [intros u []|constructor].
+    - inversion Hok as [|? ? Hu Hus]; subst.
+      destruct (match prev with Some pe => pe <? up_epoch u | None => false end); [discriminate|].
+      destruct (verify_single_update _ _ _ _ _ _ u) as [res|] eqn:E1; [|discriminate].
+      destruct (verify_updates _ _ _ _ _ _ (Some (up_epoch u)) us) as [rest|] eqn:E2; [|discriminate].
+      injection H as <-. apply single_update_sound_am in E1; auto. destruct E1 as [(-> & V1 & V2 & V3)|]; [|now right].
+      apply IH in E2; auto. destruct E2 as [(-> & Hall & Hrel)|]; [|now right]. left. split; [reflexivity|]. split.
+      + intros u' [<-|Hin]; auto.
+      + constructor; assumption.
+  Qed.
+
+  Lemma rel_all us : Forall (fun u => amrel (entry_of u) (true_entry (up_version u))) us ->
+    Forall2 amrel (map entry_of us) (map true_entry (map up_version us)).
+  Proof. induction 1; cbn [map]; constructor; assumption. Qed.
+
+  Theorem history_complete_sound_am E p rs : hp_ok2 p -> 1 <= n -> n <= E -> E < 2 ^ 64 ->
+    key_history_verify cfg vrf_check pk (root_hash cfg true t) E l p HComplete true = Some rs ->
+    Forall2 amrel rs (map true_entry (map (fun i => n - N.of_nat i) (seq 0 (N.to_nat n)))) \/ Bad.
+  Proof.
+    intros (Pu & Pf) Hn HnE HE H. unfold key_history_verify in H.
+    destruct (verify_history_shape E p HComplete) as [[past future]|] eqn:Sh; [|discriminate].
+    destruct (verify_updates _ _ _ _ _ _ None (hp_updates p)) as [results|] eqn:Vu; [|discriminate].
+    destruct (forall3 _ past _ _) eqn:Fp; [|discriminate]. cbn [negb] in H.
+    destruct (forall3 _ future _ _) eqn:Ff; [|discriminate]. cbn [negb] in H. injection H as <-.
+    apply updates_sound_am in Vu; auto. destruct Vu as [(-> & Hall & Hrel)|]; [|now right].
+    (* the shape checks *)
+    unfold verify_history_shape in Sh. set (vs := map up_version (hp_updates p)) in *.
+    destruct vs as [|m vr] eqn:Evs; [discriminate|]. rewrite <- Evs in *.
+    destruct (consecutive_decreasing vs) eqn:Cd; [|discriminate]. cbn [negb] in Sh.
+    set (start_v := fold_left N.min vs m) in *. set (end_v := fold_left N.max vs m) in *.
+    destruct (start_v =? 0); [discriminate|]. destruct (E <? end_v) eqn:Ee; [discriminate|].
+    destruct (N.eqb_spec start_v 1) as [Hs1|]; [|discriminate]. cbn [negb] in Sh.
+    destruct (get_marker_versions start_v end_v E) as [[pa fu]|] eqn:Gm; [|discriminate].
+    assert (Hfu : future = fu).
+    { repeat match type of Sh with (if ?c then None else _) = _ => destruct c; [discriminate|] end. congruence. }
+    subst fu.
+    (* vs = [m; m-1; ...; 1] *)
+    pose proof (consecutive_shape vs Cd m vr Evs) as Hshape.
+    assert (Hm_in : In m vs) by (rewrite Evs; now left).
+    assert (Hend : end_v = m).
+    { unfold end_v. apply fold_max_bound. intros v Hv. destruct (In_nth _ _ 0 Hv) as (i & Hi & <-). specialize (Hshape i Hi). lia. }
+    assert (Hlen : N.of_nat (length vs) = m).
+    { assert (Hpos : (0 < length vs)%nat) by (rewrite Evs; simpl; lia).
+      pose proof (Hshape (length vs - 1)%nat ltac:(lia)) as Hlast.
+      destruct (fold_min_le vs m) as [_ G]. fold start_v in G.
+      specialize (G (nth (length vs - 1) vs 0) ltac:(apply nth_In; lia)).
+      destruct (fold_min_in vs m) as [Hmin|Hmin]; fold start_v in Hmin.
+      - lia.
+      - destruct (In_nth _ _ 0 Hmin) as (i & Hi & Hnth). specialize (Hshape i Hi). lia. }
+    (* the newest reported version is the latest: otherwise its successor is a future marker shown absent *)
+    assert (Hmn' : m <= n).
+    { assert (Hin : In m (map up_version (hp_updates p))) by exact Hm_in.
+      apply in_map_iff in Hin. destruct Hin as (u & <- & Hu). apply Hall. exact Hu. }
+    destruct (N.eq_dec m n) as [Heq|Hne].
+    - left. rewrite <- Heq.
+      assert (Hvs : vs = map (fun i => m - N.of_nat i) (seq 0 (N.to_nat m))).
+      { apply (nth_ext _ _ 0 0).
+        + rewrite map_length, seq_length. lia.
+        + intros i Hi. specialize (Hshape i Hi).
+          rewrite (nth_indep (map (fun i0 => m - N.of_nat i0) (seq 0 (N.to_nat m))) 0 (m - N.of_nat 0)) by (rewrite map_length, seq_length; lia).
+          rewrite (map_nth (fun i0 => m - N.of_nat i0)). rewrite seq_nth by lia. simpl. lia. }
+      rewrite <- Hvs. unfold vs. apply rel_all. exact Hrel.
+    - (* m < n: version m+1 is a future marker of m, shown absent, but the tree holds it *)
+      apply marker_future_of in Gm. rewrite Hend in Gm.
+      assert (Hm1 : 1 <= m) by (rewrite <- Hlen, Evs; cbn [length]; lia).
+      assert (Hnext : In (m + 1) future) by (rewrite Gm; apply MarkerFacts.next_is_future; lia).
+      destruct (forall3_In _ _ _ _ Ff (m + 1) Hnext) as (vp & np & Hnp & Hv).
+      unfold verify_nonexistence in Hv. apply andb_true_iff in Hv. destruct Hv as [Hl Hnm].
+      apply verify_label_label in Hl. destruct (nlabel_full true (m + 1)) as (F1 & F2 & F3).
+      rewrite Forall_forall in Pf. specialize (Pf np Hnp).
+      apply (nonmem_sound_b cfg Bad B) in Hnm; auto; [|rewrite Hl; exact F2].
+      destruct Hnm as [Hnm|HB]; [|right; exact HB]. exfalso. apply Hnm. rewrite Hl. apply tree_has_fresh; lia.
+  Qed.
+
+  Theorem history_recent_sound_am E p rs r : hp_ok2 p -> 1 <= n -> n <= E -> E < 2 ^ 64 ->
+    key_history_verify cfg vrf_check pk (root_hash cfg true t) E l p (HMostRecent r) true = Some rs ->
+    (Forall2 amrel rs (map true_entry (map (fun i => n - N.of_nat i) (seq 0 (length rs)))) /\ N.of_nat (length rs) = N.min r n) \/ Bad.
+  Proof.
+    intros (Pu & Pf) Hn HnE HE H. unfold key_history_verify in H.
+    destruct (verify_history_shape E p (HMostRecent r)) as [[past future]|] eqn:Sh; [|discriminate].
+    destruct (verify_updates _ _ _ _ _ _ None (hp_updates p)) as [results|] eqn:Vu; [|discriminate].
+    destruct (forall3 _ past _ _) eqn:Fp; [|discriminate]. cbn [negb] in H.
+    destruct (forall3 _ future _ _) eqn:Ff; [|discriminate]. cbn [negb] in H. injection H as <-.
+    apply updates_sound_am in Vu; auto. destruct Vu as [(-> & Hall & Hrel)|]; [|now right].
+    unfold verify_history_shape in Sh. set (vs := map up_version (hp_updates p)) in *.
+    destruct vs as [|m vr] eqn:Evs; [discriminate|]. rewrite <- Evs in *.
+    destruct (consecutive_decreasing vs) eqn:Cd; [|discriminate]. cbn [negb] in Sh.
+    set (start_v := fold_left N.min vs m) in *. set (end_v := fold_left N.max vs m) in *.
+    destruct (N.eqb_spec start_v 0) as [|Hs0]; [discriminate|]. destruct (E <? end_v) eqn:Ee; [discriminate|].
+    destruct (r <? N.of_nat (length vs)) eqn:Er; [discriminate|]. apply N.ltb_ge in Er.
+    assert (Hpar : N.of_nat (length vs) < r -> start_v = 1).
+    { intros Hlt. apply N.ltb_lt in Hlt. rewrite Hlt in Sh. destruct (N.eqb_spec start_v 1); [assumption | discriminate]. }
+    assert (Sh' : match get_marker_versions start_v end_v E with
+                  | None => None
+                  | Some (past0, future0) =>
+                    if negb (Nat.eqb (length past0) (length (hp_past_vrf p))) then None
+                    else if negb (Nat.eqb (length (hp_past_vrf p)) (length (hp_past p))) then None
+                    else if negb (Nat.eqb (length future0) (length (hp_future_vrf p))) then None
+                    else if negb (Nat.eqb (length (hp_future_vrf p)) (length (hp_future p))) then None
+                    else Some (past0, future0)
+                  end = Some (past, future)).
+    { destruct (N.of_nat (length vs) <? r); [destruct (start_v =? 1); [exact Sh | discriminate] | exact Sh]. }
+    clear Sh.
+    destruct (get_marker_versions start_v end_v E) as [[pa fu]|] eqn:Gm; [|discriminate].
+    assert (Hfu : future = fu).
+    { repeat match type of Sh' with (if ?c then None else _) = _ => destruct c; [discriminate|] end. congruence. }
+    subst fu.
+    pose proof (consecutive_shape vs Cd m vr Evs) as Hshape.
+    assert (Hm_in : In m vs) by (rewrite Evs; now left).
+    assert (Hend : end_v = m).
+    { unfold end_v. apply fold_max_bound. intros v Hv. destruct (In_nth _ _ 0 Hv) as (i & Hi & <-). specialize (Hshape i Hi). lia. }
+    assert (Hpos : (0 < length vs)%nat) by (rewrite Evs; simpl; lia).
+    (* the smallest version is the last one: m - (len - 1) *)
+    assert (Hstart : start_v + N.of_nat (length vs - 1) = m).
+    { pose proof (Hshape (length vs - 1)%nat ltac:(lia)) as Hlast.
+      destruct (fold_min_le vs m) as [_ G]. fold start_v in G.
+      specialize (G (nth (length vs - 1) vs 0) ltac:(apply nth_In; lia)).
+      destruct (fold_min_in vs m) as [Hmin|Hmin]; fold start_v in Hmin.
+      - lia.
+      - destruct (In_nth _ _ 0 Hmin) as (i & Hi & Hnth). specialize (Hshape i Hi). lia. }
+    assert (Hmn' : m <= n).
+    { assert (Hin : In m (map up_version (hp_updates p))) by exact Hm_in.
+      apply in_map_iff in Hin. destruct Hin as (u & <- & Hu). apply Hall. exact Hu. }
+    destruct (N.eq_dec m n) as [Heq|Hne].
+    - left. rewrite map_length. split.
+      + rewrite <- Heq.
+        assert (Hvs : vs = map (fun i => m - N.of_nat i) (seq 0 (length (hp_updates p)))).
+        { apply (nth_ext _ _ 0 0).
+          * rewrite map_length, seq_length. unfold vs. rewrite map_length. reflexivity.
+          * intros i Hi. specialize (Hshape i Hi).
+            assert (Hi' : (i < length (hp_updates p))%nat) by (unfold vs in Hi; rewrite map_length in Hi; exact Hi).
+            rewrite (nth_indep (map (fun i0 => m - N.of_nat i0) (seq 0 (length (hp_updates p)))) 0 (m - N.of_nat 0)) by (rewrite map_length, seq_length; exact Hi').
+            rewrite (map_nth (fun i0 => m - N.of_nat i0)). rewrite seq_nth by exact Hi'. simpl. lia. }
+        rewrite <- Hvs. unfold vs. apply rel_all. exact Hrel.
+      + assert (Hl : length (hp_updates p) = length vs) by (unfold vs; rewrite map_length; reflexivity). rewrite Hl.
+        destruct (N.lt_ge_cases (N.of_nat (length vs)) r) as [Hlt|Hge].
+        * specialize (Hpar Hlt). lia.
+        * lia.
+    - apply marker_future_of in Gm. rewrite Hend in Gm.
+      assert (Hm1 : 1 <= m) by lia.
+      assert (Hnext : In (m + 1) future) by (rewrite Gm; apply MarkerFacts.next_is_future; lia).
+      destruct (forall3_In _ _ _ _ Ff (m + 1) Hnext) as (vp & np & Hnp & Hv).
+      unfold verify_nonexistence in Hv. apply andb_true_iff in Hv. destruct Hv as [Hl Hnm].
+      apply verify_label_label in Hl. destruct (nlabel_full true (m + 1)) as (F1 & F2 & F3).
+      rewrite Forall_forall in Pf. specialize (Pf np Hnp).
+      apply (nonmem_sound_b cfg Bad B) in Hnm; auto; [|rewrite Hl; exact F2].
+      destruct Hnm as [Hnm|HB]; [|right; exact HB]. exfalso. apply Hnm. rewrite Hl. apply tree_has_fresh; lia.
+  Qed.
 End LookupSound.
+
+Lemma amrel_spelled r tr : amrel r tr <->
+  r_version r = r_version tr /\
+  ((r_value r = r_value tr /\ r_epoch r = r_epoch tr) \/
+   (r_value r = GenConsts.TOMBSTONE /\ (r_epoch r = r_epoch tr \/ r_version r = 1))).
+Proof. reflexivity. Qed.
+
+Lemma stale_value_digest (H : bytes -> bytes) : (forall x, length (H x) = 32%nat) ->
+  forall domain, D32 (c_stale_value (whatsapp H)) /\ D32 (c_stale_value (experimental H domain)).
+Proof. intros HL domain. split; [apply HL | reflexivity]. Qed.
